@@ -76,9 +76,11 @@ InFlight(u) == pc[u] \notin (FirstPcs \cup {"Start", "Done"})
 
 EmptyLoc == [tl |-> 0, h |-> 0, cnt |-> 0, got |-> <<>>, w |-> "none", a |-> 0]
 
-InitWith(nn, p) ==
+\* k = index at which the (empty) ring starts: the real ring starts at 0; any other k is the state
+\* reached after k push/pop pairs and lets short histories reach the index wrap-around
+InitAt(nn, p, k) ==
   /\ n = nn /\ prog = p
-  /\ head = 0 /\ tail = 0
+  /\ head = k /\ tail = k
   /\ data = [i \in 0 .. (nn - 1) |-> 0]
   /\ alive = TRUE
   /\ pc = [t \in DOMAIN p |-> "Start"]
@@ -88,6 +90,8 @@ InitWith(nn, p) ==
   /\ pushed = <<>> /\ popped = <<>>
   /\ solo = [t \in DOMAIN p |-> FALSE]
   /\ soloBad = FALSE /\ obsBad = FALSE /\ lifeBad = FALSE
+
+InitWith(nn, p) == InitAt(nn, p, 0)
 
 Init == InitWith(N, Prog)
 
